@@ -417,7 +417,7 @@ func c02Links(r *Result) {
 			}
 			ps := AnalyzePaths(fn, []Atom{
 				{Name: "voting", Event: func(in ssa.Instruction) (bool, int8) {
-					return storesConstToField(in, "x/dispute/types.Dispute.DisputeStatus", "1"), T
+					return storesConstToField(in, "x/dispute/types.Dispute.DisputeStatus", enumVal(P, "x/dispute/types", "Voting")), T
 				}},
 				{Name: "startvote", Event: P.CallEvent(func(c *CallSite) bool { return c.Callee == "(x/dispute/keeper.Keeper).SetStartVote" }, T)}})
 			okAll := true
@@ -434,7 +434,7 @@ func c02Links(r *Result) {
 		for _, fn := range P.RepoFuncs {
 			for _, b := range fn.Blocks {
 				for _, in := range b.Instrs {
-					if storesConstToField(in, "x/dispute/types.Dispute.DisputeStatus", "1") {
+					if storesConstToField(in, "x/dispute/types.Dispute.DisputeStatus", enumVal(P, "x/dispute/types", "Voting")) {
 						writers = append(writers, FuncName(TopFunc(fn)))
 					}
 				}
